@@ -297,6 +297,11 @@ def load_known():
                 m = re.match(r'finding:\s*property=(\S+)\s+clause=(\S+)\s+fn-hash=(\S+)\s*::\s*(.*)$', ln)
                 if m:
                     out.append({'property': m.group(1), 'clause': m.group(2), 'hash': m.group(3), 'text': m.group(4)})
+                    continue
+                # a finding identified by the failing input (pattern, flags, input as a JSON list)
+                m = re.match(r'finding:\s*property=(\S+)\s+input=(\[.*?\])\s*::\s*(.*)$', ln)
+                if m:
+                    out.append({'property': m.group(1), 'clause': None, 'hash': None, 'input': tuple(json.loads(m.group(2))), 'text': m.group(3)})
     return out
 
 
@@ -365,11 +370,16 @@ def run_property(pid, tier, seed, units, quiet=False):
                 continue
             fh = ur['asm'].fn_hash.get(fl.fn, '')
             base = fl.oid
-            k = next((k for k in known if k['property'] == pid and k['clause'] == base and fh.startswith(k['hash'])), None)
+            k = next((k for k in known if k['property'] == pid and k['clause'] == base and k['hash'] and fh.startswith(k['hash'])), None)
             if k:
                 known_hits.append((fl, k))
             else:
                 violations.append((fl, ur))
+    # ---- bounded stand-in (a unit is undecided) / search for a failing input (an obligation is refuted)
+    input_findings = [k for k in known if k['property'] == pid and k.get('input')]
+    standin = None
+    if undecided or violations:
+        standin = run_witness(pid, tier, seed, {k['input'] for k in known if k.get('input')})
     # ---- evidence
     n_fn = sum(len(ur['fn_results']) for ur in results)
     n_ok = sum(1 for ur in results for v in ur['fn_results'].values() if v['success'])
@@ -404,6 +414,14 @@ def run_property(pid, tier, seed, units, quiet=False):
             'bounded_parts': [b for u in mine for b in u.bounded],
             'samples': samples or [{'note': 'no named clause reached'}],
             'known_findings_hit': [f'{fl.oid}: {k["text"]}' for fl, k in known_hits],
+            'known_findings_listed': [k['text'] for k in input_findings],
+            'bounded_stand_in': (None if not undecided else {
+                'label': 'bounded', 'never_counted_as_proved': True, 'stands_in_for_units': [n for n, _ in undecided],
+                'what': 'differential check of the public API against an independent oracle (python re on the common fragment) '
+                        'and metamorphic relations, see vlib/witness.py', 'explored': (standin or {}).get('explored'),
+                'error': (standin or {}).get('error'), 'failures_for_this_property': len((standin or {}).get('failures', []))}),
+            'witness_search': (None if not violations else {'explored': (standin or {}).get('explored'), 'error': (standin or {}).get('error'),
+                                                             'failing_inputs_found': len((standin or {}).get('failures', []))}),
             'other_property_failures_seen': sorted({fl.oid for fl in other}),
             'verus_version': next((ur['verus_version'] for ur in results if ur['verus_version']), None),
             'solver_time_ms': round(sum((v['smt_us'] or 0) for ur in results for v in ur['fn_results'].values()) / 1000, 1),
@@ -431,21 +449,48 @@ def run_property(pid, tier, seed, units, quiet=False):
     # ---- report
     for fl, k in known_hits:
         print(f'KNOWN-FINDING: property={pid} {fl.oid} :: {k["text"]}')
+    for k in input_findings:
+        print(f'KNOWN-FINDING: property={pid} input={json.dumps(list(k["input"]))} :: {k["text"]}')
     for n, r in undecided:
         print(f'UNDECIDED property={pid} unit={n} reason={r[:1500]}')
     rc = 0
     seen = set()
+    wfails = (standin or {}).get('failures', [])
+    from . import witness as _w
     for fl, ur in violations:
         if fl.oid in seen:
             continue
         seen.add(fl.oid)
         path = write_replay(pid, fl, ur, prop)
-        witness = try_witness(pid, fl, path)
-        tail = 'replayed=yes' if witness else 'no-failing-input-found'
+        tail = 'no-failing-input-found'
+        if wfails:
+            with open(path, 'a', encoding='utf-8') as fh:
+                fh.write('\n--- failing input (bounded search through the public API; it shows that the property is violated on this tree, '
+                         'it is not derived from the refuted obligation) ---\n' + _w.replay_text(wfails[0]))
+            tail = 'replayed=yes pattern=%s flags=%s input=%s' % (json.dumps(wfails[0]['pattern']), json.dumps(wfails[0]['flags']), json.dumps(wfails[0]['input']))
         print(f'VIOLATION property={pid} replay={path} obligation={fl.oid} verifier="{fl.message}" {tail}')
         rc = 1
-    if rc == 0 and undecided:
-        rc = 2
+    if undecided:
+        if standin is None or standin.get('error'):
+            rc = max(rc, 2) if rc != 1 else 1
+            print(f'UNDECIDED property={pid} reason=the bounded stand-in could not run: {(standin or {}).get("error")}')
+        elif wfails and rc == 0:
+            d = os.path.join(VERIF, 'replays', pid)
+            os.makedirs(d, exist_ok=True)
+            shown = set()
+            for f in wfails:
+                if f['what'] in shown or len(shown) >= 3:
+                    continue
+                shown.add(f['what'])
+                path = os.path.join(d, 'bounded_stand_in_%d.txt' % len(shown))
+                with open(path, 'w', encoding='utf-8') as fh:
+                    fh.write('BOUNDED STAND-IN for undecided unit(s) %s (not a proof obligation)\n' % ', '.join(n for n, _ in undecided) + _w.replay_text(f))
+                print(f'VIOLATION property={pid} replay={path} obligation=bounded-stand-in:{f["pid"]} pattern={json.dumps(f["pattern"])} '
+                      f'flags={json.dumps(f["flags"])} input={json.dumps(f["input"])} expected={json.dumps(f["expected"][:120])} actual={json.dumps(f["actual"][:120])}')
+            rc = 1
+        elif rc == 0:
+            print(f'BOUNDED-STAND-IN property={pid} units={",".join(n for n, _ in undecided)} explored={json.dumps(standin.get("explored"))} '
+                  'failures=0 (labelled bounded; these units are not counted as proved)')
     if not quiet:
         print(f'[{pid}] units={len(results)}/{len(mine)} functions/lemmas checked={n_fn} discharged={n_ok} '
               f'named clauses for {pid}={len(clauses)} violations={len(seen)} known={len(known_hits)} '
@@ -484,18 +529,15 @@ def selftest(pid, seed):
     return rows
 
 
-def try_witness(pid, fl, replay_path):
-    """Native witness search through the public API (enriches the report only)."""
+def run_witness(pid, tier, seed, known_inputs):
+    """bounded differential search through the public API; failures that bear on `pid`, minus the listed findings"""
     try:
         from . import witness
-    except Exception:
-        return False
-    try:
-        return witness.search(pid, fl, replay_path)
+        out = witness.search({pid}, os.environ.get('VERIF_REPO', '/repo'), tier if tier in witness.BOUNDS else 'quick', seed)
     except Exception as e:
-        with open(replay_path, 'a', encoding='utf-8') as fh:
-            fh.write(f'\n[witness search failed to run: {e}]\n')
-        return False
+        return {'error': str(e)[-1500:], 'failures': [], 'explored': None}
+    fs = [f for f in out['failures'] if pid in f.get('pids', [f['pid']]) and (f['pattern'], f['flags'], f['input']) not in known_inputs]
+    return {'failures': fs, 'explored': out['explored'], 'error': None}
 
 
 def main(argv):
